@@ -560,7 +560,11 @@ func (d *discharger) validatorSummary(v *ssa.Function) map[string]bool {
 	complete := core.EnumPaths(v, 2, 20000, func(path []*ssa.BasicBlock) {
 		last := path[len(path)-1]
 		ret, ok := last.Instrs[len(last.Instrs)-1].(*ssa.Return)
-		if !ok || !core.IsNilConst(ret.Results[0]) {
+		if !ok {
+			return
+		}
+		// every return that may carry a nil error counts (also `return check(x)` forwarding another validator's verdict)
+		if core.ErrKnownNonNil(core.ResolvedResults(ret)[0], core.PathNonNil(path, len(path)-1)) {
 			return
 		}
 		have := map[string]bool{}
